@@ -41,7 +41,7 @@ def permute(case):
 
 def corpus():
     out = []
-    for i, c in enumerate(sched_prop.scheduler_corpus()[-3:]):
+    for i, c in enumerate(sched_prop.scheduler_corpus()[-4:]):
         c = dict(c)
         c['perm_seed'] = i + 1
         out.append(c)
